@@ -59,6 +59,8 @@ class LThread:
         self.result = None
         self.clock = 0.0  # per-thread fake clock (see FakeTime)
         self.notified = False
+        self.timed_wait = None
+        self.expired = False
         self.steps = 0
         self.traced_calls = 0
         self.thread = threading.Thread(target=self._main, daemon=True, name="coop-" + str(name))
@@ -127,12 +129,12 @@ class Coop:
 
     def enabled(self, t):
         st = t.state
-        if st in ("line",):
+        if st in ("line", "event", "lockyield"):
             return True
         if st == "idle":
             return t.job is not None
         if st == "lock":
-            return t.info.free_for(t)
+            return t.info.free_for(t)      # (a timed wait can also be ended by Coop.expire)
         if st == "cv":
             return t.info.lock.free_for(t)
         if st == "osread":
@@ -162,6 +164,17 @@ class Coop:
             raise InfraError("coop: wake of a thread that is not in cv.wait")
         t.clock += elapsed
         t.notified = notified
+        return self.step(t)
+
+    def can_expire(self, t):
+        """``t`` waits for a lock with a timeout and the lock is still held by somebody else"""
+        return t.state == "lock" and getattr(t, "timed_wait", None) is not None and not t.info.free_for(t)
+
+    def expire(self, t):
+        """let the timed lock acquisition of ``t`` time out; run to the next park"""
+        if not self.can_expire(t):
+            raise InfraError("coop: expire of a thread that is not in a timed lock wait")
+        t.expired = True
         return self.step(t)
 
     def run_to_idle(self, t, limit=100000):
@@ -204,15 +217,29 @@ class CoopLock:
         return self.owner is None or (self.reentrant and self.owner is t)
 
     def acquire(self, blocking=True, timeout=-1):
+        """``timeout`` >= 0 makes this a *timed* acquisition: while the lock is held by somebody else the logical thread
+        parks with ``timed_wait`` set, and the harness may end the wait either by granting the lock once it is free or by
+        letting it time out (``Coop.expire``) — then this returns False and the thread's fake clock has advanced by the
+        timeout.  A zero timeout / non-blocking attempt on a held lock fails at once."""
         me = self._me()
+        timed = blocking and timeout is not None and timeout >= 0
         if self.always_yield and me != "main" and blocking and not (self.reentrant and self.owner is me):
-            me._park("lock", self)
+            me._park("lockyield", self)     # a pure yield point: always enabled
         while not self.free_for(me):
-            if not blocking:
+            if not blocking or (timed and timeout == 0):
                 return False
             if me == "main":
                 raise InfraError("coop: the harness thread would block on lock %s" % self.name)
-            me._park("lock", self)
+            me.timed_wait = timeout if timed else None
+            me.expired = False
+            try:
+                me._park("lock", self)
+            finally:
+                me.timed_wait = None
+            if me.expired:
+                me.expired = False
+                me.clock += timeout
+                return False
         self.owner = me
         self.count += 1
         if self.hook is not None:
@@ -290,6 +317,33 @@ class CoopCondition:
             t.notified = True
 
     notifyAll = notify_all
+
+
+class CoopEvent:
+    """Drop-in for ``threading.Event`` whose ``set``/``clear`` are yield points (the calling logical thread parks
+    *before* the flag changes — typically while it holds the lock of the object that owns the event)."""
+
+    def __init__(self, sched):
+        self.sched = sched
+        self.flag = False
+
+    def _yield(self):
+        me = current()
+        if me is not None:
+            me._park("event", self)
+
+    def set(self):
+        self._yield()
+        self.flag = True
+
+    def clear(self):
+        self._yield()
+        self.flag = False
+
+    def is_set(self):
+        return self.flag
+
+    isSet = is_set
 
 
 class ThreadingProxy:
